@@ -47,6 +47,18 @@ def parts(p: Path) -> list[str]:
     return [x for x in p.parts if x != "/"]
 
 
+def _rel_oracle(frm, to, relative_path):
+    try:
+        rel = relative_path(frm, to)
+    except Exception as e:  # noqa: BLE001
+        return ("rel-raises", f"relative_path({frm}, {to}) raised {type(e).__name__}: {e}")
+    if os.path.normpath(os.path.join(frm, rel)) != os.path.normpath(to):
+        return ("rel-wrong", f"{frm} / {rel} does not denote {to}")
+    if Path(rel).is_absolute():
+        return ("rel-absolute", f"relative_path returned the absolute path {rel}")
+    return None
+
+
 def oracle(case: dict):
     dictIO = native.dictio()
     from dictIO.utils.path import highest_common_root_folder, relative_path
@@ -54,15 +66,20 @@ def oracle(case: dict):
     kind = case["kind"]
     if kind == "rel":
         frm, to = Path(case["from"]), Path(case["to"])
+        made = None
+        m = case.get("materialise")
+        if m and not Path(m["base"]).exists():      # replay: put the tree back so that the start file exists
+            made = Path(m["base"])
+            for d in m["dirs"]:
+                (made / d).mkdir(parents=True, exist_ok=True)
+            for f in m["files"]:
+                (made / f).parent.mkdir(parents=True, exist_ok=True)
+                (made / f).write_text("x")
         try:
-            rel = relative_path(frm, to)
-        except Exception as e:  # noqa: BLE001
-            return ("rel-raises", f"relative_path({frm}, {to}) raised {type(e).__name__}: {e}")
-        if os.path.normpath(os.path.join(frm, rel)) != os.path.normpath(to):
-            return ("rel-wrong", f"{frm} / {rel} does not denote {to}")
-        if Path(rel).is_absolute():
-            return ("rel-absolute", f"relative_path returned the absolute path {rel}")
-        return None
+            return _rel_oracle(frm, to, relative_path)
+        finally:
+            if made is not None:
+                shutil.rmtree(made, ignore_errors=True)
     if kind == "hcr":
         tmp = native.scratch_dir("c18h_")
         try:
@@ -96,7 +113,13 @@ def oracle(case: dict):
             a.write_text("own  1;\n")
             b.write_text("fromB  2;\nsubB { x 3; }\n")
             try:
-                da = dictIO.DictReader.read(a)
+                if case.get("a_in_memory"):
+                    # the including dict is built in memory for a target that does not exist yet, and dumped only afterwards
+                    a.unlink()
+                    da = dictIO.SDict(a)
+                    da.update({"own": 1})
+                else:
+                    da = dictIO.DictReader.read(a)
                 db = dictIO.DictReader.read(b)
                 da.include(db)
                 da.dump()
@@ -198,6 +221,15 @@ def run(ctx):
                 nt = ".." in il or any(" " in x or "." in x for x in parts(p.relative_to(root)) + parts(d.relative_to(root)))
                 ctx.count(("r", str(d.relative_to(tmp)), str(p.relative_to(tmp)), ti), nt, "rel",
                           sample={"from": str(d.relative_to(tmp)), "to": str(p.relative_to(tmp))} if nt and len(ctx.samples) < 3 else None)
+            # a start location that is an existing FILE (the computation is about path text: joined to the start it must
+            # denote the target all the same)
+            for f in rng.sample(files, min(len(files), 4)):
+                for pth in rng.sample(everything, min(len(everything), 8)):
+                    c = {"kind": "rel", "from": str(f), "to": str(pth), "materialise": {"dirs": [str(x.relative_to(tmp)) for x in dirs], "files": [str(x.relative_to(tmp)) for x in files], "base": str(tmp)}}
+                    r = oracle(c)
+                    if r:
+                        ctx.oracle_fail(c, r[0], r[1])
+                    ctx.count(("rf", str(f.relative_to(tmp)), str(pth.relative_to(tmp)), ti), True, "rel-from-file")
             # highest common root folder on subsets
             rel_dirs = [str(d.relative_to(root)) for d in dirs if d != root]
             rel_files = [str(f.relative_to(root)) for f in files]
@@ -247,6 +279,11 @@ def run(ctx):
         if r:
             ctx.oracle_fail(c, r[0], r[1])
         ctx.count(("i", a, b), name != "same", "include:" + name, sample=c)
+        c2 = dict(c, a_in_memory=True)
+        r = oracle(c2)
+        if r:
+            ctx.oracle_fail(c2, r[0], r[1])
+        ctx.count(("im", a, b), True, "include-in-memory:" + name)
         # model: the directive chain (emit, then parse the emitted line) names the relative path
         from dictIO.utils.path import relative_path as rp
 
@@ -265,9 +302,11 @@ def run(ctx):
         if a == b:
             continue
         c = {"kind": "include", "a": a, "b": b}
+        if i % 3 == 0:
+            c["a_in_memory"] = True
         r = oracle(c)
         if r:
             ctx.oracle_fail(c, r[0], r[1])
-        ctx.count(("i", a, b), da != db, "include:random")
+        ctx.count(("i", a, b, c.get("a_in_memory")), da != db, "include:random")
     if ctx.classes["rel"] == 0 or ctx.classes["hcr"] == 0:
         raise RuntimeError("generator starved")
